@@ -291,6 +291,17 @@ func c09FaultEnum(r *mc.Run, w *enga.World, path []enga.ABlock, b enga.ABlock) {
 			if d := sameFinalize(res.Finalize, resRef.Finalize); d != "" {
 				viol("tolerated-answer-changes-result", d, f)
 			}
+			// what the engine is told does not depend on what it answered: same calls with the same
+			// arguments (head, safe and finalised block included) as in the fault-free run
+			told := func(cs []sim.Call) (out []string) {
+				for _, c := range cs {
+					out = append(out, c.Method+":"+c.Digest)
+				}
+				return
+			}
+			if a, b := told(res.Calls), told(resRef.Calls); fmt.Sprint(a) != fmt.Sprint(b) {
+				viol("engine-told-something-else-after-a-tolerated-answer", fmt.Sprintf("calls %v, fault-free run %v", a, b), f)
+			}
 		}
 	})
 }
